@@ -77,8 +77,8 @@ def ser_vd(vd):
 def ser_op(op):
     if op[0] in "Gg":
         return f"{op[0]} {op[1]}"
-    if op[0] == "S":
-        return f"S {op[1]} {ser_val(op[2])}"
+    if op[0] in "SV":
+        return f"{op[0]} {op[1]} {ser_val(op[2])}"
     if op[0] == "U":
         return f"U {len(op[1])} " + " ".join(f"{n} {ser_val(v)}" for n, v in op[1])
     raise ValueError(op)
@@ -124,7 +124,7 @@ class Desc:
         ops = []
         for o in j["ops"]:
             if o[0] in "Gg": ops.append((o[0], o[1]))
-            elif o[0] == "S": ops.append(("S", o[1], fixv(o[2])))
+            elif o[0] in "SV": ops.append((o[0], o[1], fixv(o[2])))
             else: ops.append(("U", [(n, fixv(v)) for n, v in o[1]]))
         d.ops = ops
         return d
@@ -200,7 +200,7 @@ def gen_desc(r, max_ops=40, p_raise=0.08, p_rej=0.4):
             ops.append(("g", r.randrange(P)))
         elif x < 0.70:
             n = r.randrange(P)
-            ops.append(("S", n, gen_val(n)))
+            ops.append(("S" if r.random() < 0.7 else "V", n, gen_val(n)))
         else:
             kw = []
             for n in r.sample(range(P), r.randint(0, min(P, 3))):
@@ -332,6 +332,13 @@ def run_python(d, cache_mod, fw_mod):
                     out = "v:" + show_val(getattr(obj, pname(op[1])))
                 elif op[0] == "S":
                     setattr(obj, pname(op[1]), copy.deepcopy(op[2]))
+                    out = "u"
+                elif op[0] == "V":
+                    obj._validate_every_param_set = True
+                    try:
+                        setattr(obj, pname(op[1]), copy.deepcopy(op[2]))
+                    finally:
+                        obj._validate_every_param_set = False
                     out = "u"
                 else:
                     obj.update(**{pname(n): copy.deepcopy(v) for n, v in op[1]})
